@@ -293,6 +293,7 @@ theorem setFields_nestedUnknown : ∀ (wt : WT) (d : Dict), nestedUnknown wt d =
         | ok r => exact setFields_nestedUnknown rest d h r hr
       | int i => simp [hd] at hw
       | str s => simp [hd] at hw
+      | atom s => simp [hd] at hw
       | dict d' =>
         cases hs : setFields sub d' with
         | error e => simp [hd, hs] at hw
@@ -393,6 +394,7 @@ theorem parserSetDefaults_single (wr : Bool) (st st' : PState) (r : Reg) (f : Di
     | null => simp [hd] at h
     | int i => simp [hd] at h
     | str s => simp [hd] at h
+    | atom s => simp [hd] at h
     | dict d =>
       cases hs : setDefault r.wt d with
       | error e => simp [hd, hs] at h
